@@ -30,7 +30,7 @@ ID = "C01"
 LEVEL = "exploration"
 TECHNIQUE = "property-based statistical testing: Hypothesis draws thermodynamic parameters/proposals/seeds, long chains through the real drivers are compared with closed-form statistical mechanics (batch-means z-tests with effect-size floor, KS / chi-square at fixed alpha)"
 RULE = (
-    "case = (scenario out of 17 scenario x proposal kinds, seed, temperature / spring constant / field / pressure / chemical potential / particle number / proposal size drawn by Hypothesis, chain length). "
+    "case = (scenario out of 17 scenario x proposal kinds (one of them with some particles held by FixAtoms), seed, temperature / spring constant / field / pressure / chemical potential / particle number / proposal size drawn by Hypothesis, chain length). "
     "Non-trivial = acceptance rate within (0.05, 0.95) and effective sample size >= 500 (batch means); a chain with ESS < 50 is reported inconclusive (the z-test itself stays valid for poorly mixing chains because the batch-means standard error grows with the autocorrelation). "
     "distinct = (scenario, N, rounded parameters, seed)."
 )
@@ -84,6 +84,8 @@ def case_st(draw, scenario, steps):
         c["dtw"] = draw(fl(0.95, 1.2)) if rough else draw(fl(0.5, 1.7))
         c["nsteps"] = draw(st.integers(3, 8)) if rough else draw(st.integers(3, 15))
         c["masses"] = [draw(fl(1, 100)) for _ in range(8)]
+        # HMC2: some of the particles are held by FixAtoms; the free ones still have (3/2) kT each
+        c["nfix"] = draw(st.integers(0, c["N"] - 1)) if kind2 == "HMC2" else 0
         if kind2.startswith("HMC"):
             # A fixed trajectory length close to a multiple of half the period of some atom maps that atom's x to +-x:
             # its potential energy then (nearly) never changes and a correct chain mixes arbitrarily slowly.  Choose
@@ -196,6 +198,14 @@ def run_harm(c, out):
     atoms.set_masses(c["masses"][:N])
     atoms.calc = FastCalc("harmonic", {"k": k, "center": (5.0, 5.0, 5.0)})
     labels = np.arange(N)
+    nfix = int(c.get("nfix") or 0)
+    e_fixed = 0.0
+    if nfix:
+        from ase.constraints import FixAtoms
+
+        atoms.set_constraint(FixAtoms(indices=list(range(nfix))))
+        e_fixed = float(0.5 * k * ((atoms.positions[:nfix] - 5.0) ** 2).sum())  # constant contribution of the held particles
+        out["labels"].append("some-particles-fixed")
     with warnings.catch_warnings():
         warnings.simplefilter("ignore")
         if prop.startswith("HMC"):
@@ -240,6 +250,8 @@ def run_harm(c, out):
                 a2 = Atoms("H" * N, positions=np.full((N, 3), 5.0) + np.arange(N)[:, None] * 0.01, cell=[10, 10, 10])
                 a2.set_masses(c["masses"][:N])
                 a2.calc = FastCalc("harmonic", {"k": k, "center": (5.0, 5.0, 5.0)})
+                if nfix:
+                    a2.set_constraint(FixAtoms(indices=list(range(nfix))))
                 m2 = HamiltonianCanonical(a2, temperature=T, max_cycles=1, seed=c["seed"])
                 hm = HamiltonianDisplacementMove(operation=Verlet(dt=c["dtw"] / (omega * fs), max_steps=c["nsteps"]))
                 m2.add_move(hm, name="hmc")
@@ -276,20 +288,21 @@ def run_harm(c, out):
                     out["acc"], out["ess"] = 0.5, 0.0
                     return
     burn = c["steps"] // 10
-    x = e[burn:] / kT
-    desc = f"{c['scenario']} N={N} T={T:.4g} k={k:.4g} step={c['size']:.3g} thermal widths seed={c['seed']}"
-    mean, se, z, ess = batch_z(x, 1.5 * N)
+    x = (e[burn:] - e_fixed) / kT
+    n_free = N - nfix
+    desc = f"{c['scenario']} N={N} ({nfix} held by FixAtoms) T={T:.4g} k={k:.4g} step={c['size']:.3g} thermal widths seed={c['seed']}"
+    mean, se, z, ess = batch_z(x, 1.5 * n_free)
     if prop.startswith("HMC") and hmc_resonant(c["masses"][:N], c["dtw"], c["nsteps"]):
         out["labels"].append("hmc-trajectory-length-resonant")
         ess = 0.0  # inconclusive by construction (see hmc_resonant); the twin-chain oracle above does not depend on mixing
     out["acc"], out["ess"] = acc / c["steps"], ess
     if ess < 50:
         return
-    if verdict(out, "harmonic-mean-energy:" + prop, "<E>/kT", mean, se, z, 1.5 * N, floor_rel=0.02, desc=desc):
+    if verdict(out, "harmonic-mean-energy:" + prop, "<E>/kT", mean, se, z, 1.5 * n_free, floor_rel=0.02, desc=desc):
         return
     v = (x - x.mean()) ** 2
-    mean, se, z, _ = batch_z(v, 1.5 * N)
-    verdict(out, "harmonic-energy-variance:" + prop, "Var(E)/kT^2", mean, se, z, 1.5 * N, floor_rel=0.08, desc=desc)
+    mean, se, z, _ = batch_z(v, 1.5 * n_free)
+    verdict(out, "harmonic-energy-variance:" + prop, "Var(E)/kT^2", mean, se, z, 1.5 * n_free, floor_rel=0.08, desc=desc)
 
 
 def run_dipole(c, out):
